@@ -403,7 +403,7 @@ theorem sibling_exchange_while_held (k : Kind) (p : P) (i j : Nat) (hij : i ≠ 
   have s2 := siblings_progress k (stepP k p j (.arrive n)).1 j (.complete v)
   simp only [runP, List.append_nil]
   refine ⟨?_, ?_⟩
-  · rw [s1.1, s2.1, s1.2.1, hj]; simp [step]
+  · rw [s1.1, s2.1, s1.2.1, hj]; simp [step, afterHook]
   · rw [s2.2.2 i hij, s1.2.2 i hij]; exact hi
 
 -- ------------------------------------------------------------------------------------------------
